@@ -94,6 +94,15 @@ def corrupt_capacity(run):
     return None
 
 
+def corrupt_span(run):
+    """a block outside the single arena the pool owns: extent of the issued blocks larger than the capacity"""
+    for e in run:
+        if e.get("op") == "alloc" and e.get("ok") and e.get("cap") and e.get("span"):
+            e["span"] = [e["cap"][0] + 1]
+            return run
+    return None
+
+
 def _first_run_fam(path):
     try:
         with open(path) as f:
@@ -153,6 +162,8 @@ def run(ctx):
     ctx.selftest_corrupt(TRACE, clean[0], corrupt_free, "a free of a live block reported as failed")
     ctx.selftest_corrupt(TRACE, clean[0], corrupt_short, "a block shorter than requested")
     ctx.selftest_corrupt(TRACE, capped[0], corrupt_capacity, "a success beyond the stated capacity")
+    spanned = [f for f in b1files if _first_run_fam(f) in ("fixedcap", "lockfree", "bump")] or b1files
+    ctx.selftest_corrupt(TRACE, spanned[0], corrupt_span, "blocks of a single-arena pool further apart than its capacity")
     # --- evidence
     cov = ctx.cov
     cov["b1_events"] = s1.get("events", 0)
